@@ -128,7 +128,7 @@ def dFieldInfo (j : Json) : Except String FieldInfo := do
 def dClass (j : Json) : Except String ClassInfo := do
   pure {
     id := ← dStr (field j "id")
-    «meta» := ← dMeta (field j "meta")
+    metas := ← dList (dPair dOptStr dMeta) (field j "metas")
     mro := ← dList dStr (field j "mro")
     bases := ← dList dStr (field j "bases")
     fields := ← dList dFieldInfo (field j "fields")
